@@ -53,6 +53,10 @@ def plan(tier, seed):
         # five samples, reduced: copies of training samples as queries, forced k = 2, 3
         for a, b in E.chunks(4 ** 5, 32):
             shards.append(("1d-copies", 5, "euclidean", a, b))
+    # six samples at generic (tie-free) positions, every training order, k = 3 and 4 forced; the
+    # KNN-supervised model gets one class per sample, so the returned label names the winning neighbour
+    for a, b in E.chunks(720, 45):
+        shards.append(("gen", 6, "euclidean", a, b))
     # ordinary lattice data at a scale where every squared distance is ~1e-22
     for a, b in E.chunks(4 ** 4, 16):
         shards.append(("1d-tiny", 4, "squared_euclidean", a, b))
@@ -106,6 +110,24 @@ def _programs(shard, seed):
                     else:
                         p["val"] = {"X": X, "labels": lab}
                     yield p
+        return
+    if lk == "gen":
+        import itertools
+        sc = [1.0, 0.5, 2.0, 3.0][seed % 4] if seed else 1.0
+        marks = [0.0, 1.0, 4.0, 9.0, 15.0, 22.0]
+        pad = [1e6]
+        qs = sorted({m * sc + d for m in marks for d in (-0.4, 0.0, 0.3)} |
+                    {(a_ + b_) * sc / 2.0 + 0.01 for a_ in marks for b_ in marks} | {40.0 * sc})
+        for perm in itertools.islice(itertools.permutations(range(n)), a, b):
+            X = [[marks[i] * sc] for i in perm]
+            for mx in (3, 4):
+                yield {"model": "UnsupervisedOPF", "mode": "features", "X": X, "metric": metric,
+                       "labels": [i % 2 for i in range(n)], "min_k": 1, "max_k": mx, "force_k": mx,
+                       "queries": [[q] for q in qs], "pad": pad, "positions": [0]}
+                lab = list(range(n))
+                yield {"model": "KNNSupervisedOPF", "mode": "features", "X": X, "metric": metric,
+                       "labels": lab, "max_k": mx, "force_k": mx, "val": {"X": X, "labels": lab},
+                       "queries": [[q] for q in qs], "pad": pad, "positions": [0]}
         return
     if lk == "1d-tiny":
         pts = [tuple(v * 1e-11 for v in p) for p in E.lattice("1d", seed)]
